@@ -653,12 +653,17 @@ def no_lazily_filled_attributes(ctx, rule, classes):
     model = ctx.model.plain()
     n = 0
     bad = []
+    cached_props = {f.name for f in model.funcs.values() if any('cached_property' in ast.unparse(d) for d in getattr(f.node, 'decorator_list', []))}
     for fi in model.funcs.values():
         if fi.mod.rel not in ('pyplate/pyplate.py', 'pyplate/slicer.py') or fi.parent is not None:
             continue
         if fi.cls is None or fi.cls.name not in classes:
             continue
         n += 1
+        parents = {}        # local: attributes set on the nodes would be followed by every later deepcopy of the tree
+        for x in ast.walk(fi.node):
+            for ch in ast.iter_child_nodes(x):
+                parents[ch] = x
         for x in ast.walk(fi.node):
             # if obj.attr is None: obj.attr = ..
             if isinstance(x, ast.If) and isinstance(x.test, ast.Compare) and len(x.test.ops) == 1 and \
@@ -676,6 +681,31 @@ def no_lazily_filled_attributes(ctx, rule, classes):
                 for h in x.handlers:
                     if h.type is not None and 'AttributeError' in ast.unparse(h.type):
                         bad.append((fi, x.lineno, ast.unparse(x.body[0])[:40], 'attribute probed with try / except AttributeError'))
+            # the instance dictionary addressed by name (cached_property names are the decorator's own protocol)
+            if isinstance(x, ast.Attribute) and x.attr == '__dict__':
+                par = parents.get(x)
+                keynode = None
+                if isinstance(par, ast.Attribute) and isinstance(parents.get(par), ast.Call) and parents[par].args:
+                    keynode = parents[par].args[0]
+                elif isinstance(par, ast.Subscript):
+                    keynode = par.slice
+                elif isinstance(par, ast.Compare) and isinstance(par.ops[0], (ast.In, ast.NotIn)):
+                    keynode = par.left
+                if isinstance(keynode, ast.Constant) and isinstance(keynode.value, str) and keynode.value not in cached_props:
+                    bad.append((fi, x.lineno, f"{ast.unparse(x.value)}.{keynode.value}", 'instance dictionary addressed by name'))
+            # a dictionary held in an attribute and filled on demand: `if k not in x._d: x._d[k] = ..`
+            if isinstance(x, ast.If) and isinstance(x.test, ast.Compare) and len(x.test.ops) == 1 and \
+                    isinstance(x.test.ops[0], ast.NotIn) and isinstance(x.test.comparators[0], ast.Attribute) and \
+                    isinstance(x.test.comparators[0].value, ast.Name):
+                d = ast.unparse(x.test.comparators[0])
+                base = x.test.comparators[0].value.id
+                # a cache of values derived from the object itself (other attributes of it are read while filling);
+                # a registry of arguments (`self.results[name] = deepcopy(arg)`) is not one
+                derived = any(isinstance(y, ast.Attribute) and isinstance(y.value, ast.Name) and y.value.id == base and
+                              ast.unparse(y) != d for b in x.body for y in ast.walk(b))
+                if derived and any(isinstance(s_, ast.Assign) and any(isinstance(t, ast.Subscript) and ast.unparse(t.value) == d for t in s_.targets)
+                                   for b in x.body for s_ in ast.walk(b)):
+                    bad.append((fi, x.lineno, d, 'dictionary attribute filled when the key is missing'))
     anchor = model.func('Container.__init__')
     for fi, line, attr, how in bad:
         ctx.ob(rule, ctx.model.funcs.get(fi.qualname, anchor), line, f"{fi.qualname}: `{attr}` is not a lazily filled cache", False, fact=how,
@@ -683,3 +713,247 @@ def no_lazily_filled_attributes(ctx, rule, classes):
                    'the derived object reports the value of the object it was copied from', key=f"lazily filled attribute in {fi.qualname}")
     ctx.ob(rule, anchor, anchor.node.lineno, f"no lazily filled attribute in {sorted(classes)}", not bad,
            fact=f"{n} methods examined", why='see the reports', key='lazy attributes', nontrivial=False)
+
+
+def memo_keys_complete(ctx, rule, classes=None):
+    """A dictionary filled on demand inside a function (`if k not in d: d[k] = e`, `d.setdefault(k, e)`) hands `e` out
+    again for every later look-up with the same key: the key has to name everything `e` was computed from that varies
+    between look-ups - the variables of the enclosing loops and what is assigned inside them.  A key that mentions a
+    variable only through an attribute (`well.volume`, `substance.name`) does not determine it."""
+    model = ctx.model.plain()
+    n = 0
+    bad = []
+    for fi in model.funcs.values():
+        if fi.mod.rel not in ('pyplate/pyplate.py', 'pyplate/slicer.py') or fi.parent is not None:
+            continue
+        if classes is not None and (fi.cls is None or fi.cls.name not in classes):
+            continue
+        parents = {}
+        for x in ast.walk(fi.node):
+            for ch in ast.iter_child_nodes(x):
+                parents[ch] = x
+
+        def loops_of(node):
+            out = []
+            while node in parents:
+                node = parents[node]
+                if isinstance(node, (ast.For, ast.While, ast.ListComp, ast.GeneratorExp, ast.DictComp, ast.SetComp)):
+                    out.append(node)
+            return out
+
+        def whole_names(k):
+            """Names the key contains as themselves (possibly inside a tuple), not through an attribute or a call."""
+            if isinstance(k, ast.Name):
+                return {k.id}
+            if isinstance(k, (ast.Tuple, ast.List)):
+                out = set()
+                for e in k.elts:
+                    out |= whole_names(e)
+                return out
+            if isinstance(k, ast.Subscript) and isinstance(k.value, ast.Name):
+                return {ast.unparse(k)}
+            return set()
+
+        for x in ast.walk(fi.node):
+            key = value = d = None
+            body = []
+            if isinstance(x, ast.If) and isinstance(x.test, ast.Compare) and len(x.test.ops) == 1 and \
+                    isinstance(x.test.ops[0], ast.NotIn) and isinstance(x.test.comparators[0], ast.Name):
+                d = x.test.comparators[0].id
+                key = x.test.left
+                stores = [s_ for b in x.body for s_ in ast.walk(b) if isinstance(s_, ast.Assign) and
+                          any(isinstance(t, ast.Subscript) and isinstance(t.value, ast.Name) and t.value.id == d and
+                              ast.unparse(t.slice) == ast.unparse(key) for t in s_.targets)]
+                if not stores:
+                    continue
+                value = stores[0].value
+                body = x.body
+            elif isinstance(x, ast.Call) and isinstance(x.func, ast.Attribute) and x.func.attr == 'setdefault' and \
+                    isinstance(x.func.value, ast.Name) and len(x.args) == 2 and \
+                    not isinstance(x.args[1], (ast.List, ast.Dict, ast.Set, ast.Constant)) and \
+                    not (isinstance(x.args[1], ast.Call) and not x.args[1].args):
+                d, key, value = x.func.value.id, x.args[0], x.args[1]
+            if key is None:
+                continue
+            loops = loops_of(x)
+            if not loops:
+                continue
+            # the dictionary must be created outside the innermost enclosing loop for the memo to span iterations
+            created = [s_ for s_ in ast.walk(fi.node) if isinstance(s_, (ast.Assign, ast.AnnAssign)) and
+                       any(isinstance(t, ast.Name) and t.id == d for t in (s_.targets if isinstance(s_, ast.Assign) else [s_.target]))]
+            spanning = [lp for lp in loops if isinstance(lp, (ast.For, ast.While)) and
+                        not any(any(c is s_ for c in ast.walk(lp)) for s_ in created)]
+            if not spanning:
+                continue
+            n += 1
+            # what varies between look-ups: targets of the spanning loops and names assigned inside them
+            varying = set()
+            for lp in spanning:
+                if isinstance(lp, ast.For):
+                    varying |= {t.id for t in ast.walk(lp.target) if isinstance(t, ast.Name)}
+                for s_ in ast.walk(lp):
+                    if isinstance(s_, ast.Name) and isinstance(s_.ctx, ast.Store):
+                        varying.add(s_.id)
+            # names the stored value is computed from (through the assignments of the filling block)
+            bound_inside = {t.id for c_ in ast.walk(value) if isinstance(c_, ast.comprehension) for t in ast.walk(c_.target)
+                            if isinstance(t, ast.Name)}
+            used = {t.id for t in ast.walk(value) if isinstance(t, ast.Name) and isinstance(t.ctx, ast.Load)} - bound_inside
+            local_defs = {}
+            for b in body:
+                for s_ in ast.walk(b):
+                    if isinstance(s_, (ast.Assign, ast.AugAssign)):
+                        tg = s_.targets if isinstance(s_, ast.Assign) else [s_.target]
+                        for t in tg:
+                            for nm in ast.walk(t):
+                                if isinstance(nm, ast.Name):
+                                    inner = {t2.id for c_ in ast.walk(s_.value) if isinstance(c_, ast.comprehension)
+                                             for t2 in ast.walk(c_.target) if isinstance(t2, ast.Name)}
+                                    local_defs.setdefault(nm.id, set()).update(
+                                        y.id for y in ast.walk(s_.value) if isinstance(y, ast.Name) and y.id not in inner)
+                    if isinstance(s_, ast.For):
+                        for nm in ast.walk(s_.target):
+                            if isinstance(nm, ast.Name):
+                                local_defs.setdefault(nm.id, set()).update(y.id for y in ast.walk(s_.iter) if isinstance(y, ast.Name))
+            todo, seen = list(used), set()
+            while todo:
+                nm = todo.pop()
+                if nm in seen:
+                    continue
+                seen.add(nm)
+                todo.extend(local_defs.get(nm, ()))
+            inputs = {nm for nm in seen if nm not in local_defs}
+            covered = whole_names(key)
+            # a key component `units[1]` covers the name it was taken from only when the value uses that component
+            covered_names = {c.split('[')[0] if '[' in c and c not in ast.unparse(value) else c for c in covered}
+            key_inputs = {t.id for t in ast.walk(key) if isinstance(t, ast.Name)}
+            # a key derived from the very variable (its text appears in the value) is complete for that variable only
+            # if it is the whole variable
+            missing = sorted(nm for nm in inputs & varying if nm not in covered and nm not in covered_names and nm != d
+                             and not (nm in key_inputs and nm in covered))
+            # variables the key is computed from count as covered when the key is assigned from them alone and the
+            # value uses them only through the key (numerator / denominator parsed from the same text)
+            missing = [nm for nm in missing if not _determined_by(nm, key, fi.node)]
+            if missing:
+                bad.append((fi, x.lineno, d, ast.unparse(key)[:40], missing))
+    anchor = model.func('Container.create_solution')
+    for fi, line, d, key, missing in bad:
+        ctx.ob(rule, ctx.model.funcs.get(fi.qualname, anchor), line, f"{fi.qualname}: the key `{key}` of the memo `{d}` determines the stored value", False,
+               fact=f"the value also depends on {missing}, which change(s) between look-ups",
+               why='the value computed for one element is handed out for another that shares the key', key=f"memo key incomplete in {fi.qualname}")
+    ctx.ob(rule, anchor, anchor.node.lineno, 'keys of dictionaries filled on demand determine the stored values', not bad,
+           fact=f"{n} memo(s) examined", why='see the reports', key='memo keys', nontrivial=False)
+    return n
+
+
+def _determined_by(name, key, fnode):
+    """Is `name` a function of the key's whole names alone?  (`name` assigned once, from an expression over key names.)"""
+    keynames = {t.id for t in ast.walk(key) if isinstance(t, ast.Name)}
+    defs = [s_ for s_ in ast.walk(fnode) if isinstance(s_, ast.Assign) and
+            any(isinstance(nm, ast.Name) and nm.id == name for t in s_.targets for nm in ast.walk(t))]
+    if len(defs) != 1:
+        return False
+    srcs = {y.id for y in ast.walk(defs[0].value) if isinstance(y, ast.Name)}
+    return bool(srcs) and srcs <= keynames and isinstance(key, ast.Name)
+
+
+def emptiness_not_decided_by_volume(ctx, rule, classes=None):
+    """Whether a container holds something is decided on its contents.  A zero test of the volume that skips work
+    (`if not well.volume: continue`, an early return) treats solids and enzymes configured to take no volume as absent."""
+    model = ctx.model.plain()
+    n = 0
+    bad = []
+    for fi in model.funcs.values():
+        if fi.mod.rel not in ('pyplate/pyplate.py', 'pyplate/slicer.py') or fi.parent is not None:
+            continue
+        if classes is not None and (fi.cls is None or fi.cls.name not in classes):
+            continue
+        n += 1
+        for x in ast.walk(fi.node):
+            if not isinstance(x, ast.If):
+                continue
+            t = x.test
+            if isinstance(t, ast.UnaryOp) and isinstance(t.op, ast.Not):
+                t = t.operand
+                zero_test = isinstance(t, ast.Attribute) and t.attr == 'volume'
+            else:
+                zero_test = isinstance(t, ast.Compare) and len(t.ops) == 1 and isinstance(t.ops[0], (ast.Eq, ast.LtE)) and \
+                    isinstance(t.left, ast.Attribute) and t.left.attr == 'volume' and \
+                    isinstance(t.comparators[0], ast.Constant) and t.comparators[0].value == 0
+            if not zero_test:
+                continue
+            skips = x.body and isinstance(x.body[0], (ast.Continue, ast.Return, ast.Break)) and \
+                not (isinstance(x.body[0], ast.Return) and _mentions_division_context(fi, x))
+            if skips:
+                bad.append((fi, x.lineno, ast.unparse(x.test)))
+    anchor = model.func('Container.__init__')
+    for fi, line, txt in bad:
+        ctx.ob(rule, ctx.model.funcs.get(fi.qualname, anchor), line, f"{fi.qualname}: `{txt}` does not decide that there is nothing to do", False,
+               fact='the work is skipped when the volume is zero',
+               why='with solids or enzymes configured to take no volume a container of volume 0 still has contents: they are '
+                   'left out of what the skipped code records or moves', key=f"work skipped on zero volume in {fi.qualname}")
+    ctx.ob(rule, anchor, anchor.node.lineno, 'no work is skipped on a zero volume', not bad, fact=f"{n} functions examined",
+           why='see the reports', key='zero volume skip', nontrivial=False)
+
+
+def _mentions_division_context(fi, ifnode):
+    """An early `return 0` before a division by the volume is the guard of that division, not a skipped piece of work."""
+    later = [y for y in ast.walk(fi.node) if isinstance(y, ast.BinOp) and isinstance(y.op, ast.Div) and
+             isinstance(y.right, ast.Attribute) and y.right.attr == 'volume' and y.lineno > ifnode.lineno]
+    return bool(later)
+
+
+def no_writes_through_get(ctx, rule, classes=('Slicer', 'PlateSlicer', 'Plate')):
+    """`Slicer.get()` returns a view for rectangular selections and a new array for lists of wells: a write into what it
+    returned (`x = s.get(); x[...] = ..`, `out=` of a ufunc) reaches the plate for the first kind and is lost for the
+    second.  Writes go through `set` / `apply` / the array itself."""
+    model = ctx.model.plain()
+    n = 0
+    bad = []
+    for fi in model.funcs.values():
+        if fi.mod.rel not in ('pyplate/pyplate.py', 'pyplate/slicer.py') or fi.parent is not None:
+            continue
+        if classes is not None and (fi.cls is None or fi.cls.name not in classes):
+            continue
+        n += 1
+        got = {}
+        for x in ast.walk(fi.node):
+            if isinstance(x, ast.Assign):
+                tg, val = x.targets[0], x.value
+                pairs = list(zip(tg.elts, val.elts)) if isinstance(tg, ast.Tuple) and isinstance(val, ast.Tuple) and \
+                    len(tg.elts) == len(val.elts) else [(tg, val)]
+                for t_, v_ in pairs:
+                    if isinstance(t_, ast.Name) and isinstance(v_, ast.Call) and isinstance(v_.func, ast.Attribute) and \
+                            v_.func.attr == 'get' and not v_.args and not v_.keywords:
+                        got[t_.id] = x.lineno
+        if not got:
+            continue
+        for x in ast.walk(fi.node):
+            if isinstance(x, (ast.Assign, ast.AugAssign)):
+                tg = x.targets if isinstance(x, ast.Assign) else [x.target]
+                for t in tg:
+                    if isinstance(t, ast.Subscript) and isinstance(t.value, ast.Name) and t.value.id in got:
+                        bad.append((fi, x.lineno, t.value.id, 'element assignment'))
+                    if isinstance(x, ast.AugAssign) and isinstance(t, ast.Name) and t.id in got:
+                        bad.append((fi, x.lineno, t.id, 'in-place operator'))
+            if isinstance(x, ast.keyword) and x.arg == 'out':
+                for nm in ast.walk(x.value):
+                    if isinstance(nm, ast.Name) and nm.id in got:
+                        bad.append((fi, nm.lineno, nm.id, 'out= of a ufunc'))
+    anchor = model.func('Slicer.get')
+    for fi, line, name, how in bad:
+        ctx.ob(rule, ctx.model.funcs.get(fi.qualname, anchor), line, f"{fi.qualname}: nothing is written into `{name}`, the result of get()", False,
+               fact=how, why='for a selection given as a list of wells get() returns a new array: the write never reaches the '
+               'plate (the wells keep their old contents)', key=f"write through get() in {fi.qualname}")
+    ctx.ob(rule, anchor, anchor.node.lineno, 'no write goes through the result of get()', not bad, fact=f"{n} functions examined",
+           why='see the reports', key='writes through get', nontrivial=False)
+
+
+def derived_values(ctx, rule, classes):
+    """The discipline for values computed from the state of an object: not kept in lazily filled attributes, not kept in
+    class-level or module-level containers, memo keys complete, emptiness decided on contents, no writes into get()."""
+    no_lazily_filled_attributes(ctx, rule, classes)
+    no_state_outside_objects(ctx, rule, classes=classes)
+    memo_keys_complete(ctx, rule, classes=classes)
+    emptiness_not_decided_by_volume(ctx, rule, classes=classes)
+    if set(classes) & {'Slicer', 'PlateSlicer', 'Plate'}:
+        no_writes_through_get(ctx, rule, classes=tuple(c for c in classes if c in ('Slicer', 'PlateSlicer', 'Plate')))
